@@ -32,6 +32,7 @@ def labelOf (j : Json) : R Label := do
     | "refused" => pure (.refused (← nat a))
     | "raised" => pure (.raised (← nat a))
     | "done" => pure (.done (← nat a))
+    | "intr" => pure (.intr (← nat a))
     | "closeCall" => pure (.closeCall (← nat a))
     | "closeDone" => pure (.closeDone (← nat a))
     | "obsCall" => pure (.obsCall (← nat a))
